@@ -199,6 +199,16 @@ func checkC04InPlace(c *MarshalToCase, wire []byte, ci *CaseInfo) error {
 	if err != nil || len(want) != size {
 		return failf("in place: Marshal after changing fixed header fields: %d bytes (was %d), %v", len(want), size, err)
 	}
+	// first with too little room (the forwarder's slice is a few bytes short): a short-buffer error, no panic
+	hdrLen := size - len(q.Payload) - int(q.PaddingSize)
+	for _, l := range []int{size - 1, size - 1 - int(c.Tweak%5), hdrLen + 1, hdrLen} {
+		if l < 0 || l >= size {
+			continue
+		}
+		if n, err := q.MarshalTo(buf[:l]); err == nil || !errors.Is(err, io.ErrShortBuffer) || n != 0 {
+			return failf("in place: MarshalTo over the packet's own image with only %d of the %d bytes it needs: n=%d err=%v, want a short-buffer error", l, size, n, err)
+		}
+	}
 	n, err := q.MarshalTo(buf[:size])
 	if err != nil || n != size {
 		return failf("in place: MarshalTo over the packet's own %d-byte wire image: n=%d err=%v", size, n, err)
@@ -312,7 +322,7 @@ func genMarshalToCase(t *rapid.T) *MarshalToCase {
 	return c
 }
 
-const ruleC04 = "C01's well-formed packets x destination lengths {0,1,11,12,hdr-1,hdr,hdr+1,size-1,size,size+1,size+7} or uniform in [0,size+16] x prior contents {zero,0xFF,0xEE,random} x spare capacity behind the destination (0 or 1-2000 bytes: a re-sliced pooled buffer); oracle: short destination -> io.ErrShortBuffer with n=0, otherwise n=MarshalSize, bytes identical to Marshal(), bytes beyond n untouched; same for Header.MarshalTo; one case in three also runs the forwarder pattern Unmarshal(buf) / change sequence number, timestamp, SSRC, marker, PT / MarshalTo(buf) over the packet's own wire image (only when that image is a Marshal fixed point, so the layout is unchanged): result = Marshal() of the changed packet, packet intact; then, when the image has no RTP padding and there is room behind it, 1-7 padding octets are added and the packet is written in place once more; and with two or more RFC 8285 elements one of them is deleted and the shorter packet written over the image. Non-trivial = dirty destination with extension padding or >=2 RTP padding octets, or destination length in {size-1,size}; distinct = FNV-64 of the JSON case"
+const ruleC04 = "C01's well-formed packets x destination lengths {0,1,11,12,hdr-1,hdr,hdr+1,size-1,size,size+1,size+7} or uniform in [0,size+16] x prior contents {zero,0xFF,0xEE,random} x spare capacity behind the destination (0 or 1-2000 bytes: a re-sliced pooled buffer); oracle: short destination -> io.ErrShortBuffer with n=0, otherwise n=MarshalSize, bytes identical to Marshal(), bytes beyond n untouched; same for Header.MarshalTo; one case in three also runs the forwarder pattern Unmarshal(buf) / change sequence number, timestamp, SSRC, marker, PT / MarshalTo(buf) over the packet's own wire image (only when that image is a Marshal fixed point, so the layout is unchanged; first with a destination a few bytes short: short-buffer error): result = Marshal() of the changed packet, packet intact; then, when the image has no RTP padding and there is room behind it, 1-7 padding octets are added and the packet is written in place once more; and with two or more RFC 8285 elements one of them is deleted and the shorter packet written over the image. Non-trivial = dirty destination with extension padding or >=2 RTP padding octets, or destination length in {size-1,size}; distinct = FNV-64 of the JSON case"
 
 func TestC04(t *testing.T) {
 	r := begin(t, "C04", "exploration", ruleC04)
